@@ -300,14 +300,50 @@ func runC12(t *rapid.T) {
 	exp := c.Expect()
 	got := res.fr
 	if exp.Skip != "" {
+		// header with empty or duplicate names: what the option comments promise
 		core.Probe("r2-odd-header")
-		if !got.HasErr {
-			seen := map[string]bool{}
-			for _, n := range got.Names {
-				if seen[n] {
-					core.Violation(t, "C12:R2:duplicate-names", "frame has duplicate column names", tr)
-				}
-				seen[n] = true
+		names := append([]string{}, c.Names...)
+		first := map[string]int{}
+		valid, dup := true, false
+		for i, n := range names {
+			if n == "" && c.Alias != "" {
+				n = c.Alias
+				names[i] = n
+			}
+			if n == "" {
+				valid = false
+			}
+			if _, ok := first[n]; ok {
+				dup = true
+			} else {
+				first[n] = i
+			}
+		}
+		wantErr := !valid || (dup && !c.Rename)
+		if wantErr {
+			if !got.HasErr {
+				core.Violation(t, "C12:R2:odd-header-accepted", fmt.Sprintf("header %q (alias %q, rename %v) cannot give unique non-empty names, but no error was reported; names %q", c.Names, c.Alias, c.Rename, got.Names), tr)
+			}
+			return
+		}
+		if got.HasErr {
+			core.Violation(t, "C12:R2:odd-header-rejected", fmt.Sprintf("header %q with alias %q, rename %v rejected: %s", c.Names, c.Alias, c.Rename, got.Err), tr)
+			return
+		}
+		if len(got.Names) != len(names) || got.Len != len(c.Rows) && !(len(c.Names) == 1 && c.IgnoreEmptyLines) {
+			core.Violation(t, "C12:R2:odd-header-shape", fmt.Sprintf("%d columns x %d rows, document denotes %d x %d", len(got.Names), got.Len, len(names), len(c.Rows)), tr)
+			return
+		}
+		seen := map[string]bool{}
+		for i, n := range got.Names {
+			if seen[n] {
+				core.Violation(t, "C12:R2:duplicate-names", fmt.Sprintf("frame has duplicate column names %q", got.Names), tr)
+				return
+			}
+			seen[n] = true
+			if first[names[i]] == i && n != names[i] {
+				core.Violation(t, "C12:R2:odd-header-untouched-name-changed", fmt.Sprintf("column %d: name %q, header says %q (first occurrence, must be kept)", i, n, names[i]), tr)
+				return
 			}
 		}
 		return
